@@ -1343,13 +1343,17 @@ func (o *SyncMap) Copy() Object {
 
 // IndexSet implements Object interface.
 func (o *SyncMap) IndexSet(index, value Object) error {
+	// render the key before taking the lock: a key that contains this map
+	// (sm[sm] = 1) locks it for reading while it is rendered.
+	key := String(index.String())
+
 	o.mu.Lock()
 	defer o.mu.Unlock()
 
 	if o.Value == nil {
 		o.Value = Map{}
 	}
-	return o.Value.IndexSet(index, value)
+	return o.Value.IndexSet(key, value)
 }
 
 // IndexGet implements Object interface.
@@ -1409,10 +1413,13 @@ func (o *SyncMap) Len() int {
 
 // IndexDelete tries to delete the string value of key from the map.
 func (o *SyncMap) IndexDelete(key Object) error {
+	// see IndexSet
+	k := String(key.String())
+
 	o.mu.Lock()
 	defer o.mu.Unlock()
 
-	return o.Value.IndexDelete(key)
+	return o.Value.IndexDelete(k)
 }
 
 // BinaryOp implements Object interface.
